@@ -659,9 +659,9 @@ func discharge(obls []*Obligation, opts *Options) {
 // per joined path, all premises on the whole obligation, all premises per joined path.
 // Every variant is a sound weakening of the same obligation (fewer premises / case split).
 func dischargeOne(o *Obligation, budget float64) SolverResult {
-	short := budget / 4
-	if short > 3 {
-		short = 3
+	short := budget / 3
+	if short > 10 {
+		short = 10
 	}
 	spent := 0.0
 	cs := o.cases()
